@@ -315,6 +315,40 @@ func ruleC15_2(c *Ctx) {
 					}
 				}
 			}
+			if !okKV && bo != nil {
+				// one validateKeyVal call after a switch that only sorts out the unknown types: every return that may
+				// be nil is either past a successful validateKeyVal(key) or excludes this key type
+				for _, v := range callsIn(vm, "in_toto.validateKeyVal") {
+					if org(v.Common().Args[0]) != "p0" {
+						continue
+					}
+					rets := c.nilErrReturns(vm)
+					all := len(rets) > 0
+					// every comparison of the key type with this label (the type may be compared again further down)
+					var cmps []*ssa.BinOp
+					for _, b := range vm.Blocks {
+						for _, in := range b.Instrs {
+							if x, isBo := in.(*ssa.BinOp); isBo && x.Op == token.EQL {
+								if s, isS := constString(x.Y); isS && s == kt && org(x.X) == "p0.KeyType" {
+									cmps = append(cmps, x)
+								} else if s, isS := constString(x.X); isS && s == kt && org(x.Y) == "p0.KeyType" {
+									cmps = append(cmps, x)
+								}
+							}
+						}
+					}
+					for _, r := range rets {
+						excluded := false
+						for _, x := range cmps {
+							excluded = excluded || c.condAt(x, false, r.Block())
+						}
+						if !c.okCallAt(v, r.Block()) && !excluded {
+							all = false
+						}
+					}
+					okKV = okKV || all
+				}
+			}
 			c.check(okKV, R, fname(vm), "key type "+kt+": validateKeyVal's error refuses", vm.Pos(), "validateKeyVal(key) under type=="+kt, "material of "+kt+" keys is not validated")
 		}
 		// ed25519 lengths
@@ -361,6 +395,21 @@ func ruleC15_2(c *Ctx) {
 		for _, part := range []string{"Public", "Private"} {
 			matcher := "in_toto.match" + part + "KeyKeyType"
 			ok := false
+			refuses := func(call ssa.CallInstruction) bool {
+				e := errResult(call)
+				if e == nil {
+					return false
+				}
+				if flowsTo(e, func(u ssa.Instruction, via ssa.Value) bool { _, ok := u.(*ssa.Return); return ok }, nil) {
+					return true
+				}
+				for _, br := range errBranches(e) {
+					if c.failing(br.NonNil) {
+						return true
+					}
+				}
+				return false
+			}
 			for _, m := range callsIn(kv, matcher) {
 				a := m.Common().Args
 				pc, idx := producer(a[0], m)
@@ -369,6 +418,45 @@ func ruleC15_2(c *Ctx) {
 						for _, br := range errBranches(e) {
 							ok = ok || c.failing(br.NonNil)
 						}
+					}
+				}
+			}
+			// ... or in an unexported helper that validateKeyVal hands (parts of) the key to and whose error refuses
+			for _, site := range allCalls(kv) {
+				h := site.Common().StaticCallee()
+				if ok || h == nil || h.Blocks == nil || h.Pkg != kv.Pkg || h.Parent() != nil || h.Object() == nil || h.Object().Exported() || !refuses(site) {
+					continue
+				}
+				outer := func(v ssa.Value) string {
+					o := org(v)
+					for j := range h.Params {
+						pj := fmt.Sprintf("p%d", j)
+						if j < len(site.Common().Args) && (o == pj || strings.HasPrefix(o, pj+".")) {
+							return org(site.Common().Args[j]) + strings.TrimPrefix(o, pj)
+						}
+					}
+					return ""
+				}
+				ms := callsIn(h, matcher)
+				// the matcher handed in as a function value: a call through that parameter
+				for _, dyn := range allCalls(h) {
+					if dyn.Common().IsInvoke() || dyn.Common().StaticCallee() != nil {
+						continue
+					}
+					if fp, isP := dyn.Common().Value.(*ssa.Parameter); isP && fp.Parent() == h && paramIndex(fp) < len(site.Common().Args) {
+						if fv, isF := site.Common().Args[paramIndex(fp)].(*ssa.Function); isF && fname(fv) == matcher {
+							ms = append(ms, dyn)
+						}
+					}
+				}
+				for _, m := range ms {
+					a := m.Common().Args
+					if len(a) < 2 {
+						continue
+					}
+					pc, idx := producer(a[0], m)
+					if pc != nil && calleeName(pc) == "in_toto.decodeAndParse" && idx == 1 && outer(pc.Common().Args[0]) == "p0.KeyVal."+part && outer(a[1]) == "p0.KeyType" && c.okCallAt(pc, m.Block()) && refuses(m) {
+						ok = true
 					}
 				}
 			}
@@ -405,6 +493,28 @@ func ruleC15_2(c *Ctx) {
 								for _, cu := range condUsers(bo, false) {
 									if c.failing(branchTaken(cu, true)) {
 										found = true
+									}
+								}
+							}
+						}
+						// the expected type name chosen per case into one variable, compared once afterwards
+						if bo, ok := in2.(*ssa.BinOp); ok && bo.Op == token.NEQ && okv != nil {
+							var other ssa.Value
+							switch {
+							case org(bo.X) == "p1":
+								other = bo.Y
+							case org(bo.Y) == "p1":
+								other = bo.X
+							}
+							if ph, isPhi := other.(*ssa.Phi); isPhi {
+								for i, e := range ph.Edges {
+									pb := ph.Block().Preds[i]
+									if s, isS := constString(e); isS && s == w && (c.condAt(okv, true, pb) || edgeFact(pb, ph.Block(), okv, true)) {
+										for _, cu := range condUsers(bo, false) {
+											if c.failing(branchTaken(cu, true)) {
+												found = true
+											}
+										}
 									}
 								}
 							}
@@ -845,11 +955,29 @@ func (c *Ctx) boundSites(f *ssa.Function) []boundSite {
 func (c *Ctx) dischargeBound(s boundSite) (string, bool) {
 	blk := s.in.Block()
 	// local arrays with constant bounds
-	if pt, ok := s.x.Type().Underlying().(*types.Pointer); ok {
-		if at, ok := pt.Elem().Underlying().(*types.Array); ok {
+	arrT := s.x.Type().Underlying()
+	if pt, ok := arrT.(*types.Pointer); ok {
+		arrT = pt.Elem().Underlying()
+	}
+	{
+		if at, ok := arrT.(*types.Array); ok {
 			if s.idx != nil {
 				if k, ok := constInt(s.idx); ok && k >= 0 && k < at.Len() {
 					return "constant index into a fixed-size array", true
+				}
+				// range over a fixed-size array: the induction value is tested against the array length
+				if bo, ok := s.idx.(*ssa.BinOp); ok && bo.Op == token.ADD && bo.Referrers() != nil {
+					if ph, ok := bo.X.(*ssa.Phi); ok && ph.Comment == "rangeindex" {
+						if one, ok := constInt(bo.Y); ok && one == 1 {
+							for _, r := range *bo.Referrers() {
+								if cmp, ok := r.(*ssa.BinOp); ok && cmp.Op == token.LSS && cmp.X == ssa.Value(bo) {
+									if n, ok := constInt(cmp.Y); ok && n <= at.Len() && c.condAt(cmp, true, blk) {
+										return "range induction variable below the length of a fixed-size array", true
+									}
+								}
+							}
+						}
+					}
 				}
 			} else {
 				okB := true
